@@ -7,8 +7,8 @@ from common import case_rng
 from framework import Finding
 
 MON = {"C01": solvermon.mon_c01, "C02": solvermon.mon_c02, "C03": solvermon.mon_c03, "C05": solvermon.mon_c05}
-CORR = {"C01": ("de", "nm"), "C02": ("de", "nm"), "C03": ("de", "nm"), "C04": ("ctl", "de", "nm"), "C05": ("ctl",)}
-REQ = {"de": solvermodel.de_request, "nm": solvermodel.nm_request, "ctl": solvermodel.ctl_request}
+CORR = {"C01": ("de", "nm", "pw"), "C02": ("de", "nm", "pw"), "C03": ("de", "nm", "pw"), "C04": ("ctl", "de", "nm", "pw"), "C05": ("ctl",)}
+REQ = {"de": solvermodel.de_request, "nm": solvermodel.nm_request, "ctl": solvermodel.ctl_request, "pw": solvermodel.pw_request}
 
 
 def spec_view(spec):
@@ -275,6 +275,10 @@ def run_shard(pid, seed, shard, ncases, tier, extra):
             line, cmp = REQ[which](spec, rec)
             if line is not None:
                 lines.append(line); cmps.append(cmp); metas.append((which, case))
+            elif cmp is not None:
+                # the recorded run does not meet the model's oracle contract: nothing to replay, report directly
+                for key, what in cmp(None):
+                    findings.append(Finding("correspondence", key, what, dict(case)))
         if len(samples) < 2 and performed >= 3:
             samples.append(case)
     replies = leandrv.run_driver(lines) if lines else []
@@ -283,6 +287,10 @@ def run_shard(pid, seed, shard, ncases, tier, extra):
         for key, what in cmp(rep):
             c2 = dict(case); c2["request"] = line[:4000]; c2["model_reply"] = rep[:4000]
             findings.append(Finding("correspondence", key, what, c2))
+        if which == "pw":
+            its, ext = solvermodel.pw_stats(rep, case["spec"]["dim"])
+            hist["pw-iterations"] = hist.get("pw-iterations", 0) + its
+            hist["pw-extrapolation-searches"] = hist.get("pw-extrapolation-searches", 0) + ext
         if which == "nm":
             for b in solvermodel.nm_branches(rep):
                 hist["nm-branch:%s" % b] = hist.get("nm-branch:%s" % b, 0) + 1
@@ -310,7 +318,7 @@ def run_shard(pid, seed, shard, ncases, tier, extra):
 def main(pid, module, theorems, tier, seed, rule_extra, trusted_extra):
     t0 = time.time()
     proof = framework.proof_stage(pid, module, theorems, tier)
-    nshards, per = (16, 40) if tier == "quick" else (64, 250)
+    nshards, per = (16, 120) if tier == "quick" else (64, 400)
     modname = pid.lower()
     run = framework.run_shards(modname, "run_shard", pid, seed, nshards, per, tier)
 
@@ -323,8 +331,8 @@ def main(pid, module, theorems, tier, seed, rule_extra, trusted_extra):
             "driven through op sequences (Step/Solve/Set*/Finalize/exit requests); every cost call, monitor, counter and return value "
             "recorded. non-trivial = at least 3 iterations really ran (or a Solve with > 3 cost calls). " % (4 if tier == "quick" else 8)) + rule_extra
     tb = ["Lean 4.33 kernel; axioms per theorem under coverage.theorems (subset of propext, Classical.choice, Quot.sound)",
-          "hand-written model S (Model/Solver.lean, Model/NelderMead.lean) tied to /repo by the bit-exact replays counted under histogram model:de / model:nm / model:ctl",
-          "user functions are DSL terms evaluated identically by harness/dsl.py and Model/Dsl.lean; DE trial vectors are taken from the real strategy (recorded), the Powell line search is not modelled",
+          "hand-written model S (Model/Solver.lean, Model/NelderMead.lean, Model/PowellS.lean) tied to /repo by the bit-exact replays counted under histogram model:de / model:nm / model:pw / model:ctl",
+          "user functions are DSL terms evaluated identically by harness/dsl.py and Model/Dsl.lean; DE trial vectors are taken from the real strategy (recorded), Powell line searches from the real Brent (recorded)",
           ] + trusted_extra
     assumptions = ["cost/penalty never return NaN (NaN traces are skipped and counted)", "constraints deterministic, idempotent and compatible with the box (generated so)",
                    "IEEE binary64 + - * / and comparisons agree between Lean Float and numpy/CPython"]
@@ -352,6 +360,8 @@ def replay(pid, path):
         for which in CORR[pid]:
             line, cmp = REQ[which](spec, rec)
             if line is None:
+                for key, what in (cmp(None) if cmp is not None else []):
+                    print("correspondence(%s): [%s] %s" % (which, key, what)); bad += 1
                 continue
             leandrv.ensure_driver()
             rep = leandrv.run_driver([line])[0]
